@@ -119,6 +119,8 @@ def worker(arg):
         with dsdlio.Tree({"ns/A.1.0.dsdl": body}, "c04") as tr:
             status, res, prints = dsdlio.read_ns(tr.path("ns"))
         n += 1
+        if exp["t"] == "skip":
+            continue          # outside the magnitudes the specification evaluates: not judged here (totality is C13's concern)
         if status == "err":
             info = dsdlio.err_info(res)
             if not info["ide"]:
